@@ -1029,6 +1029,9 @@ pub trait Revertable {
 pub struct Checkpoint {
     /// An index interpreted by a given `Revertable` implementation to revert to a prior point.
     pub index: usize,
+    /// Number of fact updates that were pending (written but not yet attached to a command)
+    /// when the checkpoint was taken. Reverting keeps exactly these.
+    pub pending: usize,
 }
 
 /// Can be queried to look up facts.
